@@ -294,6 +294,64 @@ def run_config(chk, fe, prefix, principal, seq, toks):
     return cfg, lines, notes
 
 
+def run_preexisting(chk, fe, prefix, principal, seq):
+    """A data directory that already holds the user's collections — the default calendar as a BARE
+    repository (xandikos serves both layouts), the address book as a tree repository — is started
+    with --defaults / --autocreate: nothing may be re-initialised, discovery reaches the members."""
+    from xandikos.store.git import BareGitStore, TreeGitStore
+    from xandikos.icalendar import ICalendarFile
+    from xandikos.vcard import VCardFile
+    root = scratch_dir()
+    data = root + "/data"
+    cfg = {"frontend": fe, "prefix": prefix, "principal": principal, "starts": list(seq), "preexisting": "bare default calendar"}
+    notes = []
+    impl = None
+    try:
+        P = posixpath.normpath(principal)
+        os.makedirs(data + P + "/calendars")
+        os.makedirs(data + P + "/contacts")
+        cal = BareGitStore.create(data + P + "/calendars/calendar")
+        cal.load_extra_file_handler(ICalendarFile)
+        cal.set_type("calendar")
+        cal.set_displayname("kept")
+        for i in range(3):
+            cal.import_one("old%d.ics" % i, "text/calendar", [vevent("old-%d" % i, summary="old %d" % i)])
+        book = TreeGitStore.create(data + P + "/contacts/addressbook")
+        book.load_extra_file_handler(VCardFile)
+        book.set_type("addressbook")
+        book.import_one("friend.vcf", "text/vcard", [vcard("Friend", uid="f1")])
+        want_cal = {n: e for n, _c, e in cal.iter_with_etag()}
+        want_book = {n: e for n, _c, e in book.iter_with_etag()}
+        del cal, book
+        impl = HttpImpl(fe, prefix, Tokens(), root, principal=principal, defaults=(seq[0] == "D"), autocreate=(seq[0] != "N"))
+        base = impl.prefix.rstrip("/")
+        for k, mode in enumerate(seq):
+            if k > 0:
+                impl.srv.kw["defaults"] = (mode == "D")
+                impl.srv.kw["autocreate"] = (mode != "N")
+                impl.srv.restart()
+            walk = Walk(chk, impl, cfg)
+            found = walk.chain(walk.wellknown(), principal, True)
+            notes.extend(walk.notes)
+            for home, name, want in (("calendars", "calendar", want_cal), ("contacts", "addressbook", want_book)):
+                t = base + urllib.parse.quote(P.rstrip("/") + "/" + home + "/" + name) + "/"
+                snap = snapshot(impl, [t]).get(t)
+                got = {urllib.parse.unquote(h).rsplit("/", 1)[-1]: (v[0] or "").strip('"')
+                       for h, v in snap.items() if not h.endswith("/")} if isinstance(snap, dict) else snap
+                if got != want:
+                    notes.append(("C18:existing-collection-reinitialised-or-hidden",
+                                  "start #%d (%s): %s holds %r, before the first start it held %r" % (k + 1, mode, t, got, want)))
+                if isinstance(snap, dict) and name == "calendar":
+                    dn = [v[1] for h, v in snap.items() if h.endswith("/")]
+                    if dn and dn[0] != "kept":
+                        notes.append(("C18:existing-collection-properties-lost", "displayname of %s is %r, was 'kept'" % (t, dn[0])))
+    finally:
+        if impl is not None:
+            impl.close()
+        shutil.rmtree(root, ignore_errors=True)
+    return cfg, notes
+
+
 def run(chk):
     chk.rule = ("deployments = front end (aiohttp as run_simple_server sets it up; xandikos.web.main() in a process of its own, "
                 "killed for every restart; the WSGI callable; the xandikos/wsgi.py start-up wrapped in WellknownRedirector) x route prefix (/, /dav/, /a/b/) x principal path (with/without "
@@ -317,6 +375,17 @@ def run(chk):
                 picked.append(c)
                 seen |= keys
         combos = picked[:40]
+    pre = [(fe, "/dav/" if i % 2 else "/", "/user/", sq) for i, fe in enumerate(FRONTENDS)
+           for sq in ((("D", "D"),) if quick else (("D", "D"), ("A", "D"), ("D", "N", "D")))]
+    for (fe, pf, pr, sq) in pre:
+        cfg, notes = run_preexisting(chk, fe, pf, pr, sq)
+        chk.count("preexisting-layout-configs")
+        chk.case(("pre", fe, pf, pr, sq), nontrivial=True)
+        seen = set()
+        for sig, what in notes:
+            if sig.startswith("C18:") and sig not in seen:
+                seen.add(sig)
+                chk.violation(sig + "@" + fe, what + f" ({json.dumps(cfg, ensure_ascii=False)})", {"level": "http", "config": cfg})
     for (fe, pf, pr, sq) in combos:
         cfg, lines, notes = run_config(chk, fe, pf, pr, sq, toks)
         dis, viol = compare_http(lines)
